@@ -155,8 +155,9 @@ def check(s):
     con4 = "SAC.sac_train"
     loc4 = s.loc("SAC", "sac_train")
     sac_paths = live(s.paths(b4, "SAC", "sac_train"))
-    if len(sac_paths) != 2:
-        raise AnalysisError(f"{con4}: expected the two autotune cases, found {len(sac_paths)} paths")
+    autos = {any(v for t, v in p4.conds if t == ("attr", ("param", "self"), "autotune")) for p4 in sac_paths}
+    if autos != {True, False}:
+        raise AnalysisError(f"{con4}: expected both autotune cases, found {autos}")
     _, _, fq = s.method("SAC", "q_loss")
     for p4 in sac_paths:
         auto = any(v for t, v in p4.conds if t == ("attr", ("param", "self"), "autotune"))
@@ -281,5 +282,7 @@ def check(s):
     # write all of them at one ring index (a flag written at another slot pairs a transition with a stale done/timeout flag).
     from .C06 import check_add
     check_add(s, "C07.7", "C07.7")
+    from .util import no_late_binding
+    no_late_binding(s, "C07.7", ("lerax.buffer", "lerax.algorithm.dqn", "lerax.algorithm.sac"), necessary_for="every field of a stored transition comes from the same insertion (a function value built in a loop must not read the loop variable late)")
     for r, n in (("C07.1", 4), ("C07.2", 8), ("C07.3", 12), ("C07.4", 12), ("C07.5", 1), ("C07.6", 6), ("C07.7", 40)):
         s.floor(r, n)
